@@ -429,53 +429,147 @@ fn acc_avp(a: &Avp, out: &mut String) {
     out.push('}');
 }
 
-fn xml_escape(s: &str) -> String {
-    s.replace('&', "&amp;").replace('<', "&lt;").replace('>', "&gt;").replace('"', "&quot;")
+/// How a document is spelled is no part of what it says: the same structure is rendered in one of several legal XML
+/// spellings (chosen from the document's content, so a case renders the same way wherever it runs): explicit end tags
+/// instead of `/>`, single-quoted attributes, an XML declaration, comments (with look-alike text inside), elements and
+/// attributes the library does not read (`<vendor>`, `<typedefn>`, `may=`, `description=`), `<rule>` children of a
+/// group's `<data>`, other attribute orders, CRLF line ends and tabs. The model takes the structure only.
+fn xml_style(doc: &[DocApp]) -> u32 {
+    let mut h: u32 = doc.len() as u32;
+    for app in doc {
+        h = h.wrapping_mul(31).wrapping_add(app.id).wrapping_add(app.name.len() as u32);
+        for a in &app.avps {
+            h = h.wrapping_mul(31).wrapping_add(a.code).wrapping_add(a.name.len() as u32);
+        }
+        for (c, n) in &app.cmds {
+            h = h.wrapping_mul(31).wrapping_add(*c).wrapping_add(n.len() as u32);
+        }
+    }
+    h % 8
 }
 
 fn render_xml(doc: &[DocApp]) -> String {
-    let mut x = String::from("<diameter>\n");
-    for app in doc {
+    render_xml_style(doc, xml_style(doc))
+}
+
+fn render_xml_style(doc: &[DocApp], style: u32) -> String {
+    let q = if style == 2 { '\'' } else { '"' };
+    let esc = |t: &str| -> String {
+        let e = t.replace('&', "&amp;").replace('<', "&lt;").replace('>', "&gt;");
+        if q == '"' { e.replace('"', "&quot;") } else { e.replace('\'', "&apos;") }
+    };
+    let at = |k: &str, v: &str| -> String { format!(" {}={}{}{}", k, q, esc(v), q) };
+    // an element without children: `<x .../>` or `<x ...></x>`
+    let leaf = |name: &str, attrs: &str| -> String {
+        // style 5: every childless element has an end tag; style 1: the rules only, in the midst of `/>` elements
+        if style == 5 || (style == 1 && name == "rule") { format!("<{}{}></{}>", name, attrs, name) } else { format!("<{}{}/>", name, attrs) }
+    };
+    let comment = |x: &mut String| {
+        if style == 2 || style == 6 {
+            x.push_str("    <!-- <avp name=\"Commented-Out\" code=\"1\" vendor-id=\"77\"><data type=\"Unsigned32\"/></avp> <rule avp='x'/> -->\n");
+        }
+    };
+    let mut x = String::new();
+    if style == 2 || style == 4 {
+        x.push_str("<?xml version=\"1.0\" encoding=\"UTF-8\"?>\n");
+    }
+    // style 7: an internal DTD subset declaring entities, used for the first vendor id of the document and for a type name
+    let ent_vendor: Option<u32> = if style == 7 { doc.iter().flat_map(|a| a.avps.iter()).find_map(|a| a.vendor) } else { None };
+    if style == 7 {
         x.push_str(&format!(
-            "  <application id=\"{}\" type=\"auth\" name=\"{}\">\n",
-            app.id,
-            xml_escape(&app.name)
+            "<?xml version=\"1.0\"?>\n<!DOCTYPE diameter [\n  <!ENTITY ven \"{}\">\n  <!ENTITY tyu \"Unsigned32\">\n]>\n",
+            ent_vendor.unwrap_or(0)
         ));
+    }
+    x.push_str("<diameter>\n");
+    for (ai, app) in doc.iter().enumerate() {
+        x.push_str(&format!("  <application{}{}{}>\n", at("id", &app.id.to_string()), at("type", "auth"), at("name", &app.name)));
+        if style == 3 || style == 5 {
+            // as in the shipped 3GPP document: a vendor declaration, which the library does not read
+            x.push_str(&format!("    {}\n", leaf("vendor", &format!("{}{}", at("id", &(10415 + ai as u32).to_string()), at("name", "TGPP")))));
+        }
+        if style == 6 {
+            x.push_str(&format!("    {}\n", leaf("typedefn", &format!("{}{}", at("type-name", "Unsigned32"), at("type-parent", "OctetString")))));
+        }
         for (k, (c, n)) in app.cmds.iter().enumerate() {
             // the abbreviation is documentation: the name of the neighbouring command, as often as not
-            let short = if app.cmds.len() > 1 && (c + k as u32) % 2 == 0 { xml_escape(&app.cmds[(k + 1) % app.cmds.len()].1) } else { "XX".to_string() };
+            let short = if app.cmds.len() > 1 && (c + k as u32) % 2 == 0 { app.cmds[(k + 1) % app.cmds.len()].1.clone() } else { "XX".to_string() };
+            let rule = leaf("rule", &format!("{}{}{}", at("avp", "Session-Id"), at("required", "true"), at("max", "1")));
+            let attrs = if style == 4 {
+                format!("{}{}{}", at("name", n), at("short", &short), at("code", &c.to_string()))
+            } else {
+                format!("{}{}{}", at("code", &c.to_string()), at("short", &short), at("name", n))
+            };
             x.push_str(&format!(
-                "    <command code=\"{}\" short=\"{}\" name=\"{}\">\n      <request>\n        <rule avp=\"Session-Id\" required=\"true\" max=\"1\"/>\n      </request>\n      <answer>\n        <rule avp=\"Session-Id\" required=\"true\" max=\"1\"/>\n      </answer>\n    </command>\n",
-                c,
-                short,
-                xml_escape(n)
+                "    <command{}>\n      <request>\n        {}\n      </request>\n      <answer>\n        {}\n      </answer>\n    </command>\n",
+                attrs, rule, rule
             ));
+            comment(&mut x);
         }
         for a in &app.avps {
-            x.push_str(&format!("    <avp name=\"{}\" code=\"{}\"", xml_escape(&a.name), a.code));
-            if let Some(m) = &a.must {
-                x.push_str(&format!(" must=\"{}\"", xml_escape(m)));
-            }
-            if let Some(v) = a.vendor {
-                x.push_str(&format!(" vendor-id=\"{}\"", v));
-            }
-            // enumeration items are documentation as far as the library is concerned: whatever the type name, some
-            // definitions carry them
-            let items = a.items.unwrap_or((a.name.len() + a.code as usize) % 3);
-            if items == 0 {
-                x.push_str(&format!(">\n      <data type=\"{}\"/>\n    </avp>\n", xml_escape(&a.ty)));
+            let mut attrs = String::new();
+            let vend = match a.vendor {
+                Some(v) if style == 7 && Some(v) == ent_vendor => " vendor-id=\"&ven;\"".to_string(),
+                Some(v) => at("vendor-id", &v.to_string()),
+                None => String::new(),
+            };
+            let must = a.must.as_ref().map(|m| at("must", m)).unwrap_or_default();
+            if style == 4 {
+                attrs.push_str(&vend);
+                attrs.push_str(&at("code", &a.code.to_string()));
+                attrs.push_str(&must);
+                attrs.push_str(&at("may", "P"));
+                attrs.push_str(&at("name", &a.name));
+                attrs.push_str(&at("description", "x > y & z"));
             } else {
-                x.push_str(&format!(">\n      <data type=\"{}\">\n", xml_escape(&a.ty)));
+                attrs.push_str(&at("name", &a.name));
+                attrs.push_str(&at("code", &a.code.to_string()));
+                attrs.push_str(&must);
+                attrs.push_str(&vend);
+            }
+            x.push_str(&format!("    <avp{}>\n", attrs));
+            // enumeration items and member rules are documentation as far as the library is concerned: whatever the type
+            // name, some definitions carry them
+            let items = a.items.unwrap_or((a.name.len() + a.code as usize) % 3);
+            let rules = if (style >= 3 || style == 1) && a.ty == "Grouped" { 2 } else { 0 };
+            let ty_attr = if style == 7 && a.ty == "Unsigned32" { " type=\"&tyu;\"".to_string() } else { at("type", &a.ty) };
+            if items == 0 && rules == 0 {
+                x.push_str(&format!("      {}\n    </avp>\n", leaf("data", &ty_attr)));
+            } else {
+                x.push_str(&format!("      <data{}>\n", ty_attr));
+                for k in 0..rules {
+                    x.push_str(&format!("        {}\n", leaf("rule", &format!("{}{}{}", at("avp", &format!("Member-{}", k)), at("required", "false"), at("max", "1")))));
+                }
                 for k in 0..items {
-                    x.push_str(&format!("        <item code=\"{}\" name=\"ITEM_{}\"/>\n", k, k));
+                    x.push_str(&format!("        {}\n", leaf("item", &format!("{}{}", at("code", &k.to_string()), at("name", &format!("ITEM_{}", k))))));
                 }
                 x.push_str("      </data>\n    </avp>\n");
             }
+            comment(&mut x);
         }
         x.push_str("  </application>\n");
     }
     x.push_str("</diameter>\n");
-    x
+    // raw `<` and `>` never occur inside a value (they are escaped), so these touch the layout only
+    match style {
+        4 => x.replace(">\n", ">\r\n"),
+        5 => {
+            let mut y = String::new();
+            for seg in x.split_inclusive('\n') {
+                let t = seg.trim_start_matches(' ');
+                if t.starts_with('<') {
+                    for _ in 0..(seg.len() - t.len()) / 2 {
+                        y.push('\t');
+                    }
+                    y.push_str(t);
+                } else {
+                    y.push_str(seg);
+                }
+            }
+            y
+        }
+        _ => x,
+    }
 }
 
 pub fn cmd_of(c: u32) -> Option<CommandCode> {
